@@ -11,6 +11,7 @@ import (
 	"encoding/json"
 	"encoding/xml"
 	"flag"
+	"io"
 	"fmt"
 	"mime"
 	"net/http"
@@ -22,6 +23,7 @@ import (
 	"strings"
 
 	goahttp "goa.design/goa/v3/http"
+	goamw "goa.design/goa/v3/http/middleware"
 
 	"verifharness/vh"
 )
@@ -36,6 +38,7 @@ type Seg struct {
 type Op struct {
 	Use    bool   `json:"use,omitempty"` // mux.Use(middleware #MW)
 	MW     int    `json:"mw,omitempty"`
+	Smart  bool   `json:"smart_redirect_slashes,omitempty"` // mux.Use(middleware.SmartRedirectSlashes)
 	Method string `json:"method,omitempty"` // mux.Handle(Method, Pat, handler #H)
 	Pat    []Seg  `json:"pat,omitempty"`
 	H      int    `json:"h,omitempty"`
@@ -48,6 +51,7 @@ type Case struct {
 	Wire   string   `json:"wire_hex"` // request path as sent, hex
 	Pre    []bool   `json:"pre,omitempty"`
 	Accept string   `json:"accept"`
+	Real   bool     `json:"real_server,omitempty"` // also send it through httptest.NewServer when no handler ran
 	Chosen int      `json:"chosen"` // position in Ops of the Handle whose pattern was instantiated, -1 none
 	Values []string `json:"values_hex,omitempty"`
 }
@@ -93,6 +97,13 @@ type Obs struct {
 	CT        string            `json:"content_type,omitempty"`
 	Body      string            `json:"body,omitempty"`
 	BodyOK    *errBody          `json:"body_decoded,omitempty"`
+	DecoderOK bool              `json:"goa_response_decoder_ok,omitempty"`
+	Location  string            `json:"location,omitempty"`
+	RealSeen      bool   `json:"real_server,omitempty"`
+	RealStatus    int    `json:"real_status,omitempty"`
+	RealCT        string `json:"real_content_type,omitempty"`
+	RealBodyOK    bool   `json:"real_body_ok,omitempty"`
+	RealDecoderOK bool   `json:"real_decoder_ok,omitempty"`
 	Path      string            `json:"url_path"`
 	RawPath   string            `json:"url_rawpath"`
 	nInstalled int
@@ -166,7 +177,10 @@ func run(c *Case) *Obs {
 					o.Panics = append(o.Panics, i)
 				}
 			}()
-			if op.Use {
+			if op.Use && op.Smart {
+				m.Use(goamw.SmartRedirectSlashes)
+				installed = append(installed, -1)
+			} else if op.Use {
 				id := op.MW
 				mw := func(next http.Handler) http.Handler {
 					return http.HandlerFunc(func(w http.ResponseWriter, r *http.Request) {
@@ -213,13 +227,45 @@ func run(c *Case) *Obs {
 	}
 	w := httptest.NewRecorder()
 	m.ServeHTTP(w, req)
-	o.Status = w.Code
-	if o.Reached < 0 {
-		o.CT = w.Header().Get("Content-Type")
-		o.Body = w.Body.String()
-		o.BodyOK = decodeBody(o.CT, w.Body.Bytes())
+	// the response as a client receives it: the headers committed by WriteHeader, not the live map
+	observeResponse(o, w.Result())
+	// the same request through a real server (net/http commits and sniffs headers itself), when
+	// the client would put exactly these bytes on the wire
+	if c.Real && o.Reached < 0 && c.wire() != "" && req.URL.EscapedPath() == c.wire() {
+		saved := *o // the middlewares and handlers write into o: keep the first observation
+		srv := httptest.NewServer(m)
+		rq, _ := http.NewRequest(c.Method, srv.URL+c.wire(), nil)
+		if c.Accept != "" {
+			rq.Header.Set("Accept", c.Accept)
+		}
+		cl := &http.Client{CheckRedirect: func(*http.Request, []*http.Request) error { return http.ErrUseLastResponse }}
+		if resp, err := cl.Do(rq); err == nil {
+			ro := &Obs{Reached: -1}
+			observeResponse(ro, resp)
+			saved.RealStatus, saved.RealCT, saved.RealBodyOK, saved.RealDecoderOK, saved.RealSeen = ro.Status, ro.CT, ro.BodyOK != nil, ro.DecoderOK, true
+		}
+		srv.Close()
+		*o = saved
 	}
 	return o
+}
+
+func observeResponse(o *Obs, resp *http.Response) {
+	body, _ := io.ReadAll(resp.Body)
+	resp.Body.Close()
+	o.Status = resp.StatusCode
+	o.Location = resp.Header.Get("Location")
+	if o.Reached < 0 {
+		o.CT = resp.Header.Get("Content-Type")
+		o.Body = string(body)
+		o.BodyOK = decodeBody(o.CT, body)
+		// ... and as goa's own client decodes it
+		resp.Body = io.NopCloser(bytes.NewReader(body))
+		var er goahttp.ErrorResponse
+		if err := goahttp.ResponseDecoder(resp).Decode(&er); err == nil && er.Name == "fault" && er.ID != "" && er.Message == "404 page not found" && er.Fault {
+			o.DecoderOK = true
+		}
+	}
 }
 
 // ---------------------------------------------------------------- direct oracle
@@ -313,6 +359,18 @@ func fullyPercentValid(v string) bool { // contains '%', and PathUnescape accept
 	return err == nil
 }
 
+func hexEscapeNonASCII(s string) string {
+	var b strings.Builder
+	for i := 0; i < len(s); i++ {
+		if s[i] >= 0x80 {
+			fmt.Fprintf(&b, "%%%02x", s[i])
+		} else {
+			b.WriteByte(s[i])
+		}
+	}
+	return b.String()
+}
+
 func wildNames(p []Seg) []string {
 	var ns []string
 	for _, s := range p {
@@ -393,7 +451,7 @@ func oracle(c *Case, o *Obs, res *vh.Result) {
 		}
 		if ri >= 0 {
 			want := patString(c.Ops[ri].Pat)
-			if o.HPat != want || (o.nInstalled > 0 && o.PostPat != want) {
+			if o.HPat != want || (len(o.Ran) > 0 && o.PostPat != want) {
 				sig := "pattern-misreported"
 				fail(sig, fmt.Sprintf("pattern registered %q; ResolvePattern gave %q in the handler, %q in the middleware after next", want, o.HPat, o.PostPat))
 			}
@@ -410,6 +468,33 @@ func oracle(c *Case, o *Obs, res *vh.Result) {
 				fail(sig, fmt.Sprintf("Vars has keys %v, the pattern's wildcards are %v", vh.SortedKeys(o.Vars), names))
 			}
 		}
+	} else if o.Status == http.StatusMovedPermanently {
+		// SmartRedirectSlashes: only for a request that matches nothing as chi routes it, to the
+		// same path with the trailing slash toggled, which must match
+		smart := false
+		for _, op := range c.Ops {
+			smart = smart || (op.Use && op.Smart)
+		}
+		toggled := o.Path + "/"
+		if strings.HasSuffix(o.Path, "/") {
+			toggled = strings.TrimSuffix(o.Path, "/")
+		}
+		targetOK := false
+		for _, i := range live(c.Ops) {
+			if _, ok := refMatch(c.Ops[i].Pat, strings.Split(strings.TrimPrefix(toggled, "/"), "/")); ok && c.Ops[i].Method == c.Method && strings.HasPrefix(toggled, "/") {
+				targetOK = true
+			}
+		}
+		switch {
+		case !smart:
+			fail("unexpected-redirect", "301 although SmartRedirectSlashes is not mounted")
+		case len(matching) > 0 && o.RawPath != "":
+			fail("smart-redirect-decoded-path", fmt.Sprintf("SmartRedirectSlashes answered 301 to %q although pattern %s matches the request as chi routes it (RawPath %q): it looked at the decoded path %q", o.Location, patString(c.Ops[matching[0]].Pat), o.RawPath, o.Path))
+		case len(matching) > 0:
+			fail("smart-redirect-of-matching-request", fmt.Sprintf("301 to %q although pattern %s matches", o.Location, patString(c.Ops[matching[0]].Pat)))
+		case o.Location != "//h"+hexEscapeNonASCII(toggled) || !targetOK:
+			fail("smart-redirect-wrong-target", fmt.Sprintf("301 to %q for path %q; expected //h%s, which must match a registered pattern (%v)", o.Location, o.Path, toggled, targetOK))
+		}
 	} else {
 		if len(matching) > 0 {
 			sig := "no-handler-for-matching-request"
@@ -420,18 +505,23 @@ func oracle(c *Case, o *Obs, res *vh.Result) {
 		} else if !anyMethod {
 			if o.Status != 404 {
 				fail("notfound-status", fmt.Sprintf("no pattern matches, status is %d", o.Status))
-			} else if o.BodyOK == nil || !o.BodyOK.NameFault || !o.BodyOK.HasID || !o.BodyOK.Msg404 || !o.BodyOK.Fault {
+			} else if o.BodyOK == nil || !o.BodyOK.NameFault || !o.BodyOK.HasID || !o.BodyOK.Msg404 || !o.BodyOK.Fault || !o.DecoderOK {
 				sig := "notfound-body-malformed"
 				if textAccept(c.Accept) && o.Body == "" {
 					sig = "notfound-text-accept-empty-body"
 				}
-				fail(sig, fmt.Sprintf("404 for Accept %q has Content-Type %q and body %q: not a well-formed error", c.Accept, o.CT, o.Body))
+				fail(sig, fmt.Sprintf("404 for Accept %q: committed Content-Type %q, body %q: not a well-formed error (decodable with goahttp.ResponseDecoder: %v)", c.Accept, o.CT, o.Body, o.DecoderOK))
+			} else if o.RealSeen && (o.RealStatus != 404 || (c.Method != "HEAD" && (!o.RealBodyOK || !o.RealDecoderOK))) {
+				fail("notfound-body-malformed", fmt.Sprintf("404 for Accept %q through a real server: status %d, Content-Type %q, decodable %v / %v", c.Accept, o.RealStatus, o.RealCT, o.RealBodyOK, o.RealDecoderOK))
 			}
 		}
 	}
 	// a middleware that asked before next was told what the handler (and a middleware after
 	// next) is told: the registered pattern and the same variables; nothing when no handler runs
 	for _, pa := range o.Pre {
+		if o.Status == http.StatusMovedPermanently && o.Reached < 0 {
+			break // redirected by SmartRedirectSlashes: no handler to compare with
+		}
 		wantPat, wantVars := "", map[string]string{}
 		if o.Reached >= 0 {
 			if ri := opOfHandler(o.Reached); ri >= 0 {
@@ -587,7 +677,11 @@ func coqCase(idx int, c *Case, o *Obs) string {
 	ops := make([]string, len(c.Ops))
 	for i, op := range c.Ops {
 		if op.Use {
-			ops[i] = fmt.Sprintf("OUse %d", op.MW)
+			if op.Smart {
+				ops[i] = "OUse MSmart"
+			} else {
+				ops[i] = fmt.Sprintf("OUse (MRec %d)", op.MW)
+			}
 		} else {
 			ops[i] = fmt.Sprintf("OHandle %s %s %d", op.Method, coqPat(op.Pat), op.H)
 		}
@@ -611,6 +705,8 @@ func coqCase(idx int, c *Case, o *Obs) string {
 			out = fmt.Sprintf("(O404 %s %s)", ctClass(o.CT), body)
 		case o.Status == 405:
 			out = "O405"
+		case o.Status == 301 && strings.HasPrefix(o.Location, "//h"):
+			out = "(O301 " + coqB(strings.TrimPrefix(o.Location, "//h")) + ")"
 		default:
 			out = "OOther"
 		}
@@ -653,7 +749,7 @@ func genString(r *vh.RNG, maxPieces int, ctl bool) string {
 }
 
 var litPool = []string{"a", "b", "users", "v1", "x.y", "a-b_c", "posts", "A", "0"}
-var namePool = []string{"id", "x", "y", "p", "q", "name", "A_1", "rest"}
+var namePool = []string{"id", "x", "y", "p", "q", "name", "A_1", "rest", "0", "2nd_key", "_", "_x", "9", "Z", "007", "__", "a1b2_C3", "very_long_wildcard_name_0123456789_ABCDEFGHIJKLMNOPQRSTUVWXYZ_abcdefghijklmnopqrstuvwxyz"}
 var methods = []string{"GET", "POST", "PUT", "DELETE", "PATCH", "HEAD", "OPTIONS", "TRACE", "CONNECT"}
 var mainAccepts = []string{"", "", "application/json", "application/xml", "application/gob", "application/json; charset=utf-8", "application/xml;q=0.9",
 	"APPLICATION/XML", "image/png", "*/*", "text/html,application/xhtml+xml,application/xml;q=0.9,*/*;q=0.8", "application/vnd.api+json", "garbage", ";;", "text/css"}
@@ -714,8 +810,18 @@ func renamed(r *vh.RNG, p []Seg) []Seg { // same shape, other wildcard names
 // pattern on two methods with other wildcard names, sometimes a re-registration.
 func genOps(r *vh.RNG, nmw int) []Op {
 	var ops []Op
+	smartAt := -1
+	if r.Chance(1, 3) {
+		smartAt = r.Intn(nmw + 1)
+	}
 	for i := 0; i < nmw; i++ {
+		if i == smartAt {
+			ops = append(ops, Op{Use: true, Smart: true})
+		}
 		ops = append(ops, Op{Use: true, MW: i})
+	}
+	if smartAt == nmw {
+		ops = append(ops, Op{Use: true, Smart: true})
 	}
 	n := 1 + r.Intn(6)
 	ms := []string{"GET", "GET", "POST", vh.Pick(r, methods)}
@@ -1072,6 +1178,23 @@ func main() {
 		for _, p := range [][]Seg{get(Seg{"lit", ""}), get(Seg{"catch", "p"})} {
 			cases = append(cases, &Case{Stream: "witness-resolve-empty-path", Ops: []Op{{Use: true, MW: 0}, {Method: "GET", Pat: p, H: 0}}, Method: "GET", Wire: "", Chosen: -1, Pre: []bool{true}})
 		}
+		// goa's own SmartRedirectSlashes mounted with Use, before / after a recording middleware
+		smartA := []Op{{Use: true, Smart: true}, {Use: true, MW: 0}, {Method: "GET", Pat: uid, H: 0}, {Method: "GET", Pat: files, H: 1}}
+		smartB := []Op{{Use: true, MW: 0}, {Use: true, Smart: true}, {Use: true, MW: 1}, {Method: "GET", Pat: uid, H: 0}, {Method: "GET", Pat: files, H: 1}}
+		for _, so := range [][]Op{smartA, smartB} {
+			nu := len(so) - 2
+			mk("built", so, nu, []string{"123"}, "", []bool{true, true, true})
+			mk("built", so, nu+1, []string{"a/b"}, "", []bool{true, true, true})
+			mk("built", so, nu+1, []string{""}, "", []bool{false, true, false})
+			mk("built", so, nu, []string{"a;b"}, "", []bool{true, false, true})
+			mk("witness-smart-redirect", so, nu, []string{"a/"}, "", []bool{true, true, true})
+			mk("witness-smart-redirect", so, nu, []string{"x/y/"}, "", nil)
+			for _, w := range []string{"/u/1/", "/u", "/u/", "/f", "/f/", "/u/1/2/", "/", "", "/u/a%2F/", "/u/%C3%A9/", "/zz/"} {
+				for _, me := range []string{"GET", "POST"} {
+					cases = append(cases, &Case{Stream: "hostile", Ops: so, Method: me, Wire: hex.EncodeToString([]byte(w)), Chosen: -1, Pre: []bool{w != "", w != "", w != ""}, Real: true})
+				}
+			}
+		}
 		// Use after Handle
 		mk("witness-use-after-handle", []Op{{Method: "GET", Pat: uid, H: 0}, {Use: true, MW: 0}}, 0, []string{"1"}, "", nil)
 		mk("witness-use-after-handle", []Op{{Use: true, MW: 0}, {Method: "GET", Pat: uid, H: 0}, {Use: true, MW: 1}}, 1, []string{"1"}, "", nil)
@@ -1081,7 +1204,7 @@ func main() {
 			if textAccept(a) {
 				st = "witness-notfound-text"
 			}
-			cases = append(cases, &Case{Stream: st, Ops: []Op{{Use: true, MW: 0}, {Method: "GET", Pat: uid, H: 0}}, Method: "GET", Wire: hex.EncodeToString([]byte("/v/1")), Chosen: -1, Accept: a})
+			cases = append(cases, &Case{Stream: st, Ops: []Op{{Use: true, MW: 0}, {Method: "GET", Pat: uid, H: 0}}, Method: "GET", Wire: hex.EncodeToString([]byte("/v/1")), Chosen: -1, Accept: a, Real: true})
 		}
 		// same catch-all on two methods with different names; re-registration
 		two := []Op{{Method: "GET", Pat: files, H: 0}, {Method: "POST", Pat: get(Seg{"lit", "f"}, Seg{"catch", "q"}), H: 1}}
@@ -1125,8 +1248,11 @@ func main() {
 			}
 		}
 		rec(0, nil)
-		for _, set := range sets {
+		for setIdx, set := range sets {
 			ops := []Op{{Use: true, MW: 0}}
+			if setIdx%2 == 1 {
+				ops = []Op{{Use: true, Smart: true}, {Use: true, MW: 0}}
+			}
 			for h, i := range set {
 				op := routes[i]
 				op.H = h
@@ -1134,7 +1260,7 @@ func main() {
 			}
 			for _, w := range reqs {
 				for _, me := range []string{"GET", "POST"} {
-					cases = append(cases, &Case{Stream: "exhaustive", Ops: ops, Method: me, Wire: hex.EncodeToString([]byte(w)), Chosen: -1, Pre: []bool{w != ""}})
+					cases = append(cases, &Case{Stream: "exhaustive", Ops: ops, Method: me, Wire: hex.EncodeToString([]byte(w)), Chosen: -1, Pre: []bool{w != "", w != ""}})
 				}
 			}
 		}
@@ -1145,7 +1271,7 @@ func main() {
 			for k := 0; k < 3 && i < nBuilt; k++ {
 				c := builtCase(rng, ops, true, nil)
 				c.Stream = "built"
-				c.Pre = []bool{rng.Chance(1, 3), rng.Chance(1, 3), rng.Chance(1, 3)}
+				c.Pre = []bool{rng.Chance(1, 3), rng.Chance(1, 3), rng.Chance(1, 3), rng.Chance(1, 3)}
 				cases = append(cases, c)
 				i++
 			}
@@ -1155,11 +1281,11 @@ func main() {
 			for k := 0; k < 3 && i < nHostile; k++ {
 				me := vh.Pick(rng, []string{"GET", "GET", "POST", vh.Pick(rng, methods)})
 				hw := hostileWire(rng, ops)
-				pre := []bool{rng.Chance(1, 3), rng.Chance(1, 3)}
+				pre := []bool{rng.Chance(1, 3), rng.Chance(1, 3), rng.Chance(1, 3)}
 				if hw == "" { // the empty URL path is the recorded finding resolve-before-routing-empty-path
 					pre = nil
 				}
-				cases = append(cases, &Case{Stream: "hostile", Ops: ops, Method: me, Wire: hex.EncodeToString([]byte(hw)), Chosen: -1, Accept: vh.Pick(rng, mainAccepts), Pre: pre})
+				cases = append(cases, &Case{Stream: "hostile", Ops: ops, Method: me, Wire: hex.EncodeToString([]byte(hw)), Chosen: -1, Accept: vh.Pick(rng, mainAccepts), Pre: pre, Real: i%16 == 0})
 				i++
 			}
 		}
@@ -1182,9 +1308,15 @@ func main() {
 	var v, inputs strings.Builder
 	for i, c := range cases {
 		o := run(c)
+		if c.Stream == "built" && o.Status == http.StatusMovedPermanently && o.RawPath != "" {
+			c.Stream = "witness-smart-redirect" // outside the hypothesis of smart_transparent_partial
+		}
 		oracle(c, o, res)
 		fmt.Fprintln(&v, coqCase(i, c, o))
 		res.Count("stream=" + c.Stream)
+		if o.RealSeen {
+			res.Count("real_server_observations")
+		}
 		switch {
 		case o.ParseErr != "":
 			res.Count("outcome=url-refused")
